@@ -48,6 +48,7 @@ type Check struct {
 	Run       func(c *Ctx)          // the enumeration (executed in every worker)
 	Replay    func(r map[string]any) // optional: re-execute a replay record, print, os.Exit(1) if it still fails
 	Post      func(agg *Agg, cov map[string]any) // optional: supervisor-side post-processing of coverage
+	Prepare   func() error                       // optional: supervisor-side preparation (e.g. build the CLI from /repo)
 }
 
 var checks = map[string]*Check{}
@@ -494,6 +495,12 @@ func checkMain(args []string) {
 	}
 	n = envInt("VERIF_SHARDS", n)
 	t0 := time.Now()
+	if ck.Prepare != nil {
+		if err := ck.Prepare(); err != nil {
+			fmt.Printf("PREPARE FAILED for %s: %v\n", id, err)
+			os.Exit(2)
+		}
+	}
 	deadline := t0.Add(time.Duration(budget) * time.Second)
 	tmp, _ := os.MkdirTemp("", "vmc-"+id+"-")
 	defer os.RemoveAll(tmp)
